@@ -83,6 +83,22 @@ def run(tier, seed):
                     rec.fail(f"{text}|{d!r}", f"findall({text!r}, {d!r}) -> {got!r} but RFC 9535 selects {want!r}",
                              f"import jsonpath\ngot = jsonpath.findall({text!r}, {d!r})\nwant = {want!r}\nprint('got ', got); print('want', want)\nsys.exit(0 if repr(got) == repr(want) else 1)",
                              classify(e, d, got, want))
+    for text, doc, want in (
+        ("$[?@[-1] == 3]", [[1, 3], [3, 1], [3], [], "x3"], [[1, 3], [3]]),
+        ("$[?length(@[-1]) == 2]", [["ab"], ["abc", "xy"], [[1, 2]], [1]], [["ab"], ["abc", "xy"], [[1, 2]]]),
+        ("$[?@[-1] == @[0]]", [[1], [1, 2, 1], [1, 2], []], [[1], [1, 2, 1], []]),
+        ("$[?@[-2]]", [[1], [1, 2], []], [[1, 2]]),
+        ("$.a[?@ == $.a[-1]]", {"a": [1, 2, 1, 2]}, [2, 2]),
+    ):
+        try:
+            got = jsonpath.findall(text, doc)
+        except Exception as ex:  # noqa: BLE001
+            got = f"raises {type(ex).__name__}: {ex}"
+        if isinstance(got, list) and U.same_values(got, want):
+            rec.ok((text,))
+        else:
+            rec.fail(f"negative-index:{text}", f"findall({text!r}, {doc!r}) -> {got!r} but RFC 9535 selects {want!r} (an index segment with a negative index is singular)",
+                     f"import jsonpath\ngot = jsonpath.findall({text!r}, {doc!r})\nprint(got); sys.exit(0 if got == {want!r} else 1)")
     for fn, pat in REGEX_CASES:
         for text in (f"$[?{fn}(@, '{pat}')]", f'$[?{fn}(@, "{pat}")]', f"$[?!{fn}(@, '{pat}')]"):
             neg = "!" in text
